@@ -1,7 +1,5 @@
 import BridgeVerif.Model.Score
 import BridgeVerif.Spec.Scoring
-import BridgeVerif.Translated.Score
-import BridgeVerif.Translated.Contract
 /-!
 # C07 — Every contract and result scores what the duplicate scoring table says
 The domain is finite; each statement is proved by kernel evaluation (`decide +kernel`)
@@ -41,29 +39,6 @@ theorem declarer_side_vulnerability_only (b : Fin 35) (x xx : Bool) (v v' : Vul)
 /-- a passed-out board scores zero whatever else the contract carries -/
 theorem passed_out_scores_zero (x xx : Bool) (v : Vul) (d : Option Seat) (t : Nat) :
     calcScore ⟨none, x, xx, v, d⟩ t = some 0 := rfl
-
-/-! ## The same, for the code AS TRANSLATED from bridge_env/score.py on this run
-(`Generated/PyCore.lean` executed by the MiniPy interpreter; kernel evaluation over the complete domain) -/
-
-open Bridge.Py Bridge.Generated.PyCore in
-/-- THE TRANSLATED `calc_bid_score` is the duplicate scoring law on its whole domain -/
-theorem translated_calc_bid_score_is_law (b : Fin 35) (x xx vul : Bool) (t : Nat) (ht : t ≤ 13) :
-    (Translated.fn n_calc_bid_score [Translated.encBid b, .bool x, .bool xx, .bool vul, .int t]).int?
-      = some (dupScore (bidLevel b) (bidDenom b) (status x xx) vul t) :=
-  Translated.calc_bid_score_translated_is_law b x xx vul t ht
-
-open Bridge.Py Bridge.Generated.PyCore in
-/-- THE TRANSLATED `calc_bid_score` refuses Pass, X and XX -/
-theorem translated_calc_bid_score_rejects_non_bids : ∀ v : Fin 3, ∀ x xx vul : Bool, ∀ t : Fin 14,
-    (Translated.fn n_calc_bid_score [.enum n_Bid (36 + v.val), .bool x, .bool xx, .bool vul, .int t.val]).exc?
-      = some K.ValueError :=
-  Translated.calc_bid_score_translated_rejects_non_bids
-
-/-- THE TRANSLATED `Contract` (constructor, `is_vul`, `is_passed_out`, `level`, `trump`, texts) is the model of it on
-every contract value — in particular `is_vul` is declarer's side's vulnerability and raises without a declarer exactly
-when one side only is vulnerable -/
-theorem translated_contract_is_model (c : Contract) : Translated.contractAgrees c = true :=
-  Translated.contract_translated c
 
 /-! sanity: 4♠ doubled vulnerable making 11 = 990; 3NT −2 non-vul = −100; 7NT XX vul made = 2980 -/
 example : calcScore ⟨some ⟨18, by omega⟩, true, false, .ns, some .S⟩ 11 = some 990 := by decide
